@@ -97,6 +97,9 @@ tasks:
   fwd:
     cmds:
       - '{{.DUMP}} {{.CLI_ARGS}}'
+  default:
+    cmds:
+      - '{{.DUMP}} {{.CLI_ARGS}}'
   quote:
     cmds:
       - '{{.DUMP}} {{shellQuote .X}}'
@@ -174,12 +177,19 @@ func eval(c Case) *Mismatch {
 	case "argv", "quote", "split":
 		proj := filepath.Join(dir, "p")
 		os.MkdirAll(proj, 0o755)
-		os.WriteFile(filepath.Join(proj, "Taskfile.yml"), []byte(taskfile), 0o644)
+		os.WriteFile(filepath.Join(proj, "Taskfile.yml"), []byte(strings.Replace(taskfile, "tasks:\n", "vars:\n  DUMP: '"+DumpBin+"'\ntasks:\n", 1)), 0o644)
 		var args []string
 		n := 1
 		switch c.Kind {
 		case "argv":
-			args = append([]string{"fwd", "DUMP=" + DumpBin, "--"}, c.Argv...)
+			switch len(strings.Join(c.Argv, "")) % 3 {
+			case 0: // nothing but "--" before the arguments: they go to the default task
+				args = append([]string{"--"}, c.Argv...)
+			case 1: // only a flag before "--"
+				args = append([]string{"--silent", "--"}, c.Argv...)
+			default:
+				args = append([]string{"fwd", "DUMP=" + DumpBin, "--"}, c.Argv...)
+			}
 		case "quote":
 			args = []string{"quote", "DUMP=" + DumpBin, "X=" + c.Argv[0]}
 			n = 2
